@@ -133,7 +133,7 @@ fn now_ms() -> u64 {
     START.get_or_init(Instant::now).elapsed().as_millis() as u64 + 1
 }
 
-pub const WATCHDOG_MS: u64 = 30_000;
+pub const WATCHDOG_MS: u64 = 10_000;
 
 /// debugging aid: VERIF_HUNT=<substring of an outcome tuple> dumps up to five matching scenarios
 fn hunt() -> Option<&'static String> {
